@@ -110,6 +110,33 @@ func observe(text []byte) (o observation, vs []evid.Violation) {
 	}); pv != nil {
 		vs = append(vs, *pv)
 	}
+	// the exported struct-hashing entry point, on a fresh decode, for every type the document
+	// defines (primary type first) with the message, the domain and nothing as value: total as well
+	var td3 eip712.TypedData
+	if json.Unmarshal(text, &td3) == nil && td3.Types != nil {
+		names := make([]string, 0, len(td3.Types))
+		for n := range td3.Types {
+			names = append(names, n)
+		}
+		sort.Strings(names)
+		if len(names) > 6 {
+			names = names[:6]
+		}
+		names = append([]string{td3.PrimaryType, eip712.EIP712Domain}, names...)
+		for _, n := range names {
+			for vi, v := range []interface{}{td3.Message, td3.Domain, nil} {
+				if pv := evid.Guard("no-panic:hashstruct", func() {
+					h, err := eip712.HashStruct(ctx, n, v, td3.Types)
+					if err == nil && len(h) != 32 && v != nil && len(h) != 0 {
+						vs = append(vs, evid.V("digest-or-error", "HashStruct(%q, value %d) returned no error and %d bytes", n, vi, len(h)))
+					}
+				}); pv != nil {
+					pv.Detail = fmt.Sprintf("HashStruct(%q, value #%d): %s", n, vi, pv.Detail)
+					vs = append(vs, *pv)
+				}
+			}
+		}
+	}
 	if len(vs) > 0 {
 		return o, vs
 	}
@@ -768,6 +795,33 @@ func mutate(rt *rapid.T, root *eip712ref.JNode, step int, focus string) string {
 			s.parent.Vals = append(s.parent.Vals[:s.idx:s.idx], s.parent.Vals[s.idx+1:]...)
 			return "pos:array-shrink@" + region
 		default:
+			if rapid.IntRange(0, 2).Draw(rt, L("foreign")) == 0 {
+				// the way OTHER libraries spell a big integer in JSON (ethers v5 BigNumber.toJSON, ethers
+				// internal form, BSON extended JSON, protobuf/long.js, bn.js), complete and damaged
+				S, N, O := eip712ref.JStr, eip712ref.JNum, eip712ref.JObj
+				forms := []*eip712ref.JNode{
+					O().Set("type", S("BigNumber")).Set("hex", S("0x01")),
+					O().Set("type", S("BigNumber")),
+					O().Set("type", S("BigNumber")).Set("hex", N("1")),
+					O().Set("type", S("BigNumber")).Set("hex", eip712ref.JNull()),
+					O().Set("type", S("BigNumber")).Set("hex", S("")),
+					O().Set("type", S("BigNumber")).Set("hex", O()),
+					O().Set("hex", S("0x01")).Set("type", N("1")),
+					O().Set("_hex", S("0x01")).Set("_isBigNumber", eip712ref.JBool(true)),
+					O().Set("_hex", N("1")),
+					O().Set("$numberLong", S("5")),
+					O().Set("$numberLong", N("5")),
+					O().Set("$numberDecimal", S("5")),
+					O().Set("low", N("1")).Set("high", N("0")).Set("unsigned", eip712ref.JBool(true)),
+					O().Set("low", S("x")),
+					O().Set("negative", N("0")).Set("words", eip712ref.JArr(N("1"))).Set("length", N("1")),
+					O().Set("type", S("bigint")).Set("value", S("1")),
+					O().Set("type", S("Buffer")).Set("data", eip712ref.JArr(N("1"))),
+					O().Set("type", S("Buffer")).Set("data", S("x")),
+				}
+				s.parent.Vals[s.idx] = forms[rapid.IntRange(0, len(forms)-1).Draw(rt, L("form"))].Clone()
+				return "pos:foreign-integer-encoding@" + region
+			}
 			// numeric trouble at this position
 			s.parent.Vals[s.idx] = eip712ref.JNum(rapid.SampledFrom([]string{"1.5", "-1", "1e400", "-1e400", "1e-400", "9007199254740993", "9223372036854775808", "18446744073709551616", "115792089237316195423570985008687907853269984665640564039457584007913129639936", "-57896044618658097711785492504343953926634992332820282019728792003956564819969", "0.1", "-0", "1E2", "123456789012345678901234567890"}).Draw(rt, L("num")))
 			return "pos:number@" + region
